@@ -421,3 +421,56 @@ add('c20-get-level-any-handler', LG, "        if handler.get_name() == 'console'
 add('c20-sift-reads-level', S, "    _nsamples_warn(X.shape[0], max_imfs)\n\n    continue_sift = True\n    layer = 0\n\n    proto_imf = X.copy()",
     "    _nsamples_warn(X.shape[0], max_imfs)\n    if logger.isEnabledFor(10):\n        sift_thresh = sift_thresh * 10\n\n    continue_sift = True\n    layer = 0\n\n    proto_imf = X.copy()",
     'breaking', ['C20'], 'C20.R3')
+
+
+# ---------------------------------------------------------------- rules added for the third wave
+add('c01-resid-inplace-benign', S, "        proto_imf = X - imf.sum(axis=1)[:, None]\n        layer += 1",
+    "        proto_imf -= next_imf\n        layer += 1", 'benign', ['C01', 'C03'])
+add('c01-gni-no-copy-alone-benign', S, "    proto_imf = X.copy()\n\n    continue_imf = True", "    proto_imf = X\n\n    continue_imf = True",
+    'benign', ['C01', 'C03'])
+add('c01-break-on-cap-benign', S, "        if max_imfs is not None and layer == max_imfs:\n            logger.info('Finishing sift: reached max number of imfs ({0})'.format(layer))\n            continue_sift = False\n",
+    "        if max_imfs is not None and layer == max_imfs:\n            logger.info('Finishing sift: reached max number of imfs ({0})'.format(layer))\n            break\n",
+    'benign', ['C01', 'C03'])
+add('c01-cap-test-only-logs', S, "            logger.info('Finishing sift: reached max number of imfs ({0})'.format(layer))\n            continue_sift = False\n",
+    "            logger.info('Finishing sift: reached max number of imfs ({0})'.format(layer))\n", 'breaking', ['C01', 'C03'], 'R3')
+add('c04-stop-ignored', S, "        if stop:\n            proto_imf = x1.copy()\n            continue_imf = False\n            continue\n",
+    "        if stop:\n            proto_imf = x1.copy()\n", 'breaking', ['C04'], 'C04.R')
+add('c06-trough-option-dropped', S, "        max_locs, max_ext = _find_extrema(-X, parabolic_extrema=parabolic_extrema)",
+    "        max_locs, max_ext = _find_extrema(-X)", 'breaking', ['C06'], 'C06.R4')
+_NU = "        noise = noise - np.array([r[:, 0] for r in res]).T\n\n        pks, _ = _find_extrema(imf[:, -1])"
+add('c08-noise-update-second-imf', S, _NU, _NU.replace('r[:, 0]', 'r[:, 1]'), 'breaking', ['C08'], 'C08.R4')
+add('c08-noise-update-squeeze', S, _NU, _NU.replace('np.array([r[:, 0] for r in res]).T', 'np.squeeze([r[:, 0] for r in res]).T'),
+    'breaking', ['C08'], 'C08.R4')
+add('c08-noise-update-stack-benign', S, _NU, _NU.replace('np.array([r[:, 0] for r in res]).T', 'np.stack([r[:, 0] for r in res], axis=1)'),
+    'benign', ['C08'])
+add('c08-noise-update-not-transposed', S, _NU, _NU.replace('np.array([r[:, 0] for r in res]).T', 'np.array([r[:, 0] for r in res])'),
+    'breaking', ['C08'], 'C08.R4')
+add('c08-worker-inplace', S, "    ensX = X.copy() + noise\n", "    ensX = X\n    ensX += noise\n", 'breaking', ['C08'], 'C08.R1')
+add('c09-budget-shared', 'emd/utils.py', "            iters = 0\n            while continue_norm and (iters < max_iters):",
+    "            while continue_norm and (iters < max_iters):", 'breaking', ['C09'], 'C09.R3')
+_AUG = "    return np.arange(inds[0] - xx[0], inds[-1] + 1)"
+add('c15-aug-stop-short', CS, _AUG, "    return np.arange(inds[0] - xx[0], inds[-1])", 'breaking', ['C15'], 'C15.R7')
+add('c15-aug-start-shift', CS, _AUG, "    return np.arange(inds[0] - xx[0] - 1, inds[-1] + 1)", 'breaking', ['C15'], 'C15.R7')
+add('c15-aug-threshold-le', CS, "    xx = np.where(np.flipud(phase[:inds[0]]) < 1.5*np.pi)[0]\n    if len(xx) == 0:\n        # No candidate trough to the left of this cycle",
+    "    xx = np.where(np.flipud(phase[:inds[0]]) <= 1.5*np.pi)[0]\n    if len(xx) == 0:\n        # No candidate trough to the left of this cycle",
+    'breaking', ['C15'], 'C15.R7')
+add('c15-aug-named-start-benign', CS, _AUG, "    start = inds[0] - xx[0]\n    stop = inds[-1] + 1\n    return np.arange(start, stop)", 'benign', ['C15', 'C16'])
+add('c15-aug-none-guard-dropped', CS, "        if inds is None:\n            # No augmented cycle here, same result as the slice-cache route\n            out[ii] = np.nan\n        elif isinstance(vals, tuple):",
+    "        if isinstance(vals, tuple):", 'breaking', ['C15'], 'C15.R8')
+add('c15-slice-none-guard-dropped', CS, " if s is not None else np.nan for s in slices])", " for s in slices])", 'breaking', ['C15'], 'C15.R8')
+add('c14-stat-caller-wrong-labels', CY, "        vals = _cycles_support.project_cycles_to_samples(vals, cycles.cycle_vect)",
+    "        vals = _cycles_support.project_cycles_to_samples(vals, cycles.subset_vect)", 'breaking', ['C14'], 'C14.R5')
+add('c14-align-no-extrapolate', CY, "                            bounds_error=False, fill_value='extrapolate')", "                            bounds_error=False)",
+    'breaking', ['C14'], 'C14.R3')
+add('c17-argmin-method-benign', CY, "        ix = [np.argmin(D[uni_inds[jj], ii]) for jj in range(len(uni))]", "        ix = [D[uni_inds[jj], ii].argmin() for jj in range(len(uni))]",
+    'benign', ['C17'])
+add('c17-argmin-other-column', CY, "        ix = [np.argmin(D[uni_inds[jj], ii]) for jj in range(len(uni))]", "        ix = [np.argmin(D[uni_inds[jj], 0]) for jj in range(len(uni))]",
+    'breaking', ['C17'], 'C17.R3')
+add('c19-ensure2d-reshape-benign', SU, "        if to_check[idx].ndim == 1:\n            msg = \"Checking {0} inputs - Adding dummy dimension to input '{1}'\"\n            logger.debug(msg.format(func_name, names[idx]))\n            out_args[idx] = out_args[idx][:, np.newaxis]", "        if to_check[idx].ndim == 1:\n            out_args[idx] = out_args[idx].reshape(-1, 1)", 'benign', ['C19', 'C10', 'C11', 'C12'])
+add('c19-ensure2d-astype', SU, "        if to_check[idx].ndim == 1:\n            msg = \"Checking {0} inputs - Adding dummy dimension to input '{1}'\"\n            logger.debug(msg.format(func_name, names[idx]))\n            out_args[idx] = out_args[idx][:, np.newaxis]", "        if to_check[idx].ndim == 1:\n            out_args[idx] = out_args[idx][:, np.newaxis].astype(float)", 'breaking', ['C19'], 'C19.R1')
+add('c19-ensure2d-row-vector', SU, "        if to_check[idx].ndim == 1:\n            msg = \"Checking {0} inputs - Adding dummy dimension to input '{1}'\"\n            logger.debug(msg.format(func_name, names[idx]))\n            out_args[idx] = out_args[idx][:, np.newaxis]", "        if to_check[idx].ndim == 1:\n            out_args[idx] = out_args[idx][np.newaxis, :]", 'breaking', ['C19', 'C10'], 'R')
+add('c20-get-level-sets-up', LG, "    logger = logging.getLogger('emd')\n    for handler in logger.handlers:\n        if handler.get_name() == 'console':\n            return handler.level",
+    "    if not is_active():\n        set_up()\n    logger = logging.getLogger('emd')\n    for handler in logger.handlers:\n        if handler.get_name() == 'console':\n            return handler.level",
+    'breaking', ['C20'], 'C20.R5')
+add('c18-mask-amp-ndarray-test', S, "        if isinstance(mask_amp, (int, float)):\n            amp = mask_amp * sd\n        else:\n            # Should be array_like if not a single number\n            amp = mask_amp[imf_layer] * sd",
+    "        if isinstance(mask_amp, np.ndarray):\n            amp = mask_amp[imf_layer] * sd\n        else:\n            amp = mask_amp * sd", 'breaking', ['C18'], 'C18.R6')
